@@ -7,6 +7,7 @@ From IprV Require Import GenTypes RBModel RBProofs Comparators Unify Arena Arena
 From IprV.gen Require Import GenCmp GenWords.
 From IprV Require Derived CompareSource.
 From IprV.gen Require GenDerived.
+From IprV.gen Require GenAccess.
 Import ListNotations.
 
 (* For every history of requests (every interleaving, every operand choice):
@@ -124,6 +125,13 @@ Proof. exact CompareSource.node_order_is_by_address. Qed.
 Theorem c01_value_operands_resolve_to_value_overloads : CompareSource.calls_ok gen_compare_calls = true.
 Proof. exact CompareSource.value_operands_resolve_to_value_overloads. Qed.
 
+(* The library swallows no exception: every catch clause in it ends by throwing again (table regenerated from the source; at the
+   time of writing the library has no catch clause at all), so a request that fails (out of memory, a refusal below) is not turned into a half-built table entry. *)
+Theorem c01_library_swallows_no_exception :
+  forallb (fun r => snd r) GenAccess.gen_catch_clauses = true.
+Proof. vm_compute. reflexivity. Qed.
+
+Print Assumptions c01_library_swallows_no_exception.
 Print Assumptions c01_linkage_order_is_by_language.
 Print Assumptions c01_convention_order_is_by_name.
 Print Assumptions c01_transfer_order_is_lexicographic.
